@@ -841,6 +841,32 @@ fn run_rewind(p: usize, len: usize, chunks: &[usize], caps: &[usize]) -> (Vec<u8
 
 // ------------------------------------------------------------------------------------------------
 
+/// Cut sets of a window of w bytes with at most k cuts: the cut sets of the 32-byte window that lie
+/// inside 1..w-1, i.e. the printed masks below 2^(w-1) (see MC_Sniff.tla).
+fn masks_for(cuts: &HashMap<usize, Arc<Vec<u32>>>, w: usize, k: u32) -> Vec<u32> {
+    if w <= 1 {
+        return vec![0];
+    }
+    let all = cuts.get(&WINDOW).unwrap_or_else(|| {
+        eprintln!("no cut sets given (expected a cuts line for L={WINDOW})");
+        std::process::exit(3)
+    });
+    let lim: u64 = 1u64 << (w - 1);
+    let mut v: Vec<u32> = all.iter().copied().filter(|m| (*m as u64) < lim && m.count_ones() <= k).collect();
+    v.sort();
+    v
+}
+
+/// The scripted IO answers as the model writes them: chunk sizes, 1000 = Pending, 0 = end of stream.
+fn io_script(items: &[Item]) -> Vec<usize> {
+    items.iter().filter_map(|it| match it {
+        Item::Chunk(a, b) => Some(b - a),
+        Item::Pend => Some(1000),
+        Item::Eof => Some(0),
+        Item::Hold => None,
+    }).collect()
+}
+
 fn arg(args: &[String], name: &str) -> Option<String> {
     args.iter().position(|a| a == name).and_then(|i| args.get(i + 1).cloned())
 }
@@ -885,11 +911,7 @@ fn main() {
                 let entry = Entry::parse(v["entry"].as_str().unwrap()).unwrap();
                 let k = v["K"].as_u64().unwrap() as u32;
                 let w = sc.window();
-                let all = cuts.get(&w).unwrap_or_else(|| {
-                    eprintln!("no cut sets for window {w}");
-                    std::process::exit(3)
-                });
-                let mut masks: Vec<u32> = all.iter().copied().filter(|m| m.count_ones() <= k).collect();
+                let mut masks: Vec<u32> = masks_for(&cuts, w, k);
                 if v["ones"].as_bool().unwrap_or(false) && w >= 2 {
                     let ones = ((1u64 << (w - 1)) - 1) as u32;
                     if !masks.contains(&ones) {
@@ -988,6 +1010,7 @@ fn main() {
                             let idx = f.base + mi * f.pend.len() + pi;
                             let pmask = pend_mask(pm, nitems(&f.sc, chunks.len()));
                             let items = build_items(&f.sc, &chunks, pmask);
+                            let script = io_script(&items);
                             let o = run_conn(f.entry, f.sc.bytes.clone(), items, false).await;
                             let key = GKey { fam: fi, proto: o.proto.clone(), saw: o.saw.clone(), ans: o.ans.clone() };
                             add_group(&mut groups, key, idx, &chunks, pmask);
@@ -999,6 +1022,7 @@ fn main() {
                                 m.insert("idx".into(), json!(idx));
                                 m.insert("chunks".into(), json!(chunks));
                                 m.insert("pendmask".into(), json!(pmask));
+                                m.insert("io".into(), json!(script));
                                 m.insert("caps".into(), json!(o.caps));
                                 m.insert("got".into(), json!(o.got));
                                 m.insert("res".into(), json!(o.res));
@@ -1090,6 +1114,7 @@ fn main() {
             }
             items.insert(at, Item::Hold);
         }
+        let script = io_script(&items);
         let o = rt.block_on(run_conn(entry, sc.bytes.clone(), items, cancel.is_some()));
         let mut r = conn_record(&sc, entry, &o, &refo);
         let m = r.as_object_mut().unwrap();
@@ -1098,6 +1123,7 @@ fn main() {
         m.insert("x".into(), json!(1));
         m.insert("chunks".into(), json!(chunks));
         m.insert("pendmask".into(), json!(pmask));
+        m.insert("io".into(), json!(script));
         m.insert("caps".into(), json!(o.caps));
         m.insert("got".into(), json!(o.got));
         m.insert("res".into(), json!(o.res));
@@ -1142,10 +1168,7 @@ fn main() {
             let w = len - p;
             let capsets: Vec<Vec<usize>> = v["caps"].as_array().unwrap().iter()
                 .map(|a| a.as_array().unwrap().iter().map(|x| x.as_u64().unwrap() as usize).collect()).collect();
-            let masks: Vec<u32> = if w == 0 { vec![0] } else {
-                cuts.get(&w).unwrap_or_else(|| { eprintln!("no cut sets for window {w}"); std::process::exit(3) })
-                    .iter().copied().filter(|m| m.count_ones() <= k).collect()
-            };
+            let masks: Vec<u32> = masks_for(&cuts, w, k);
             for mk in masks {
                 let chunks = chunks_from_mask(mk, w);
                 for caps in &capsets {
